@@ -531,13 +531,62 @@ def judge_read_labels(st, lang, fmt, t, res_tree):
     rec(res_tree)
 
 
+_RT = {}
+
+
+def twin_trees(lang):
+    """4..6-word trees in which the same ordered pair of child categories occurs at several nodes with different parent categories
+    (every ordered pair of distinct results the grammar gives for one pair of lexical categories), as siblings and nested; the top
+    node is the grammar's result for the two parents when there is one, otherwise an underivable node"""
+    from depccg.grammar import en, ja
+    fn = en.apply_binary_rules if lang == 'en' else ja.apply_binary_rules
+    lex = [K.P(c) for c in (T.EN_LEX if lang == 'en' else T.JA_LEX)]
+    out = []
+
+    def node(cat, r, l, rr):
+        return ('B', str(cat), (r.op_string, r.op_symbol, bool(r.head_is_left)) if r is not None else ('unk', '<unk>', lang == 'en'), l, rr)
+    for a in lex:
+        for b in lex:
+            rs, seen = [], set()
+            for r in fn(a, b):
+                if K.key(r.cat) not in seen:
+                    seen.add(K.key(r.cat))
+                    rs.append(r)
+            if len(rs) < 2:
+                continue
+            for r1, r2 in itertools.permutations(rs, 2):
+                ctr = [0]
+
+                def leafpair(r):
+                    i = ctr[0]
+                    ctr[0] += 2
+                    return node(r.cat, r, ('L', str(a), i), ('L', str(b), i + 1))
+                left, right = leafpair(r1), leafpair(r2)
+                top = fn(r1.cat, r2.cat)
+                out.append(node(top[0].cat, top[0], left, right) if top else node(r1.cat, None, left, right))
+                # nested: ((a b) (x ((a b) y))) is not needed for the label claim; a third occurrence with the first parent again
+                ctr[0] = 0
+                l1, l2, l3 = leafpair(r1), leafpair(r2), leafpair(r1)
+                inner = node(r2.cat, None, l2, l3)
+                out.append(node(r1.cat, None, l1, inner))
+    return out
+
+
+def reader_trees(lang, tier):
+    k = (lang, tier)
+    if k not in _RT:
+        lic, _ = T.licensed_sample(lang, 3, 2 if tier == 'quick' else 12)
+        _RT[k] = lic + twin_trees(lang)
+    return _RT[k]
+
+
 def c12_reader_shard(sh):
     lang, fmt, tier, lo, hi = sh
     st = core.Stats()
     scratch = f'/dev/shm/verif.c12.{os.getpid()}'
     os.makedirs(scratch, exist_ok=True)
     try:
-        lic, _ = T.licensed_sample(lang, 3, 2 if tier == 'quick' else 12)
+        lic = reader_trees(lang, tier)
         sel = lic[lo:hi]
         for b in core.chunked(sel, 40):
             trees = [make_tree(t, [f'w{i}' for i in range(T.n_leaves(t))], lang) for t in b]
@@ -631,7 +680,7 @@ def c12_history_part(tier, seed):
 def c12_reader_part(tier, seed):
     shards = []
     for lang in ('en', 'ja'):
-        lic, _ = T.licensed_sample(lang, 3, 2 if tier == 'quick' else 12)
+        lic = reader_trees(lang, tier)
         for fmt in READ_FORMATS[lang]:
             step = max(60, len(lic) // 12)
             shards += [(lang, fmt, tier, lo, min(len(lic), lo + step)) for lo in range(0, len(lic), step)]
